@@ -17,6 +17,7 @@ func init() {
 	vrt.Register("C07_chain", Chain)
 	vrt.Register("C07_failed_condition", FailedCondition)
 	vrt.Register("C07_falsy_shadows_truthy", FalsyShadowsTruthy)
+	vrt.Register("C07_truthiness_routes", TruthinessRoutes)
 }
 
 type T struct{ N int }
@@ -350,4 +351,90 @@ func GeneratedChains() {
 		prog = []*gen.Stmt{gen.Text("<"), outer, gen.Text(">")}
 	}
 	gen.Check(prog, gen.NewData(2).WithHits(8), "if chain from the grammar")
+}
+
+// ---- the same truth value whatever route the value takes to the test: typed
+// struct fields (through a value and through a pointer), map entries, slice
+// elements, method results. A never-allocated slice, map or func held in a
+// field is as truthy as the same value bound directly; a nil pointer, nil
+// interface, "" and false are falsy on every route.
+type Holder struct {
+	NilSlice []int
+	Empty    []int
+	Full     []string
+	NilMap   map[string]int
+	Map      map[string]int
+	NilFn    func() bool
+	P        *T
+	PP       *T
+	S        string
+	H        template.HTML
+	B        bool
+	Any      interface{}
+	AnyNS    interface{}
+	Z        int
+	F        float64
+}
+
+func (h Holder) GetNilSlice() []int       { return h.NilSlice }
+func (h Holder) GetNilMap() map[string]int { return h.NilMap }
+func (h Holder) GetP() *T                  { return h.P }
+
+func probe(expr string, truthy bool) (in, want string) {
+	tf := func(b bool) string {
+		if b {
+			return "T"
+		}
+		return "F"
+	}
+	switch vrt.Choice(8) {
+	case 0:
+		return "<%= if (" + expr + ") { %>T<% } else { %>F<% } %>", tf(truthy)
+	case 1:
+		return "<%= if (false) { %>X<% } else if (" + expr + ") { %>T<% } else { %>F<% } %>", tf(truthy)
+	case 2:
+		return "<%= !" + expr + " %>", b2s(!truthy)
+	case 3:
+		return "<%= !!" + expr + " %>", b2s(truthy)
+	case 4:
+		return "<%= (" + expr + ") && true %>", b2s(truthy) // parenthesised: x[i].f && y is not in the grammar
+	case 5:
+		return "<%= (" + expr + ") || false %>", b2s(truthy)
+	case 6:
+		return "<%= true && (" + expr + ") %>", b2s(truthy)
+	}
+	return "<%= if (!" + expr + ") { %>F<% } else { %>T<% } %>", tf(truthy)
+}
+
+func TruthinessRoutes() {
+	s := vrt.Bytes(vrt.IntRange(0, 1))
+	b := vrt.Bool()
+	h := Holder{Empty: []int{}, Full: []string{""}, Map: map[string]int{}, PP: &T{}, S: s, H: template.HTML(s), B: b, AnyNS: []int(nil), Z: 0, F: 0}
+	ctx := plush.NewContext()
+	ctx.Set("h", h)
+	ctx.Set("hp", &h)
+	ctx.Set("m", map[string]interface{}{"ns": []int(nil), "nm": map[string]int(nil), "np": (*T)(nil), "s": s, "nil": nil, "z": 0})
+	ctx.Set("xs", []interface{}{[]int(nil), (*T)(nil), s, nil, map[string]int(nil)})
+	ctx.Set("hs", []Holder{h})
+	type cs struct {
+		expr   string
+		truthy bool
+	}
+	cases := []cs{
+		{"h.NilSlice", true}, {"h.Empty", true}, {"h.Full", true}, {"h.NilMap", true}, {"h.Map", true}, {"h.NilFn", true},
+		{"h.P", false}, {"h.PP", true}, {"h.S", s != ""}, {"h.H", s != ""}, {"h.B", b}, {"h.Any", false}, {"h.AnyNS", true}, {"h.Z", true}, {"h.F", true},
+		{"hp.NilSlice", true}, {"hp.NilMap", true}, {"hp.P", false}, {"hp.S", s != ""}, {"hp.NilFn", true},
+		{"m[\"ns\"]", true}, {"m[\"nm\"]", true}, {"m[\"np\"]", false}, {"m[\"s\"]", s != ""}, {"m[\"nil\"]", false}, {"m[\"z\"]", true}, {"m[\"absent\"]", false},
+		{"xs[0]", true}, {"xs[1]", false}, {"xs[2]", s != ""}, {"xs[3]", false}, {"xs[4]", true},
+		{"hs[0].NilSlice", true}, {"hs[0].P", false}, {"hs[0].NilMap", true},
+		{"h.GetNilSlice()", true}, {"h.GetNilMap()", true}, {"h.GetP()", false},
+	}
+	c := cases[vrt.Choice(len(cases))]
+	in, want := probe(c.expr, c.truthy)
+	vrt.Note("input", in)
+	got, err := plush.Render(in, ctx)
+	vrt.Note("got", got)
+	vrt.Assert(err == nil, "testing the truth of a value reached by a path renders: "+c.expr)
+	vrt.Assert(got == want, "the truth value does not depend on the route the value takes to the test: "+c.expr)
+	vrt.Cover("done")
 }
